@@ -57,6 +57,10 @@ def main(tier, seed):
                 p = []
                 for _ in range(rng.randint(3, 6)): p += print_char(rng.choice([65, 66, 67, 10]))
                 p += [(0, 1, 2, leaf(13))] + print_char(rng.choice([68, 69])) + [(1, 1, 1, (1, leaf(13), None))]
+            elif rng.random() < 0.05:
+                # more than a kilobyte of multi-byte output from ONE entered line (seeded change C12-output-handed-over-in-1024-byte-pieces)
+                ch = rng.choice([0x1000, 0xAC00, 0x20AC, 0xE9])
+                p = idiom_loop(rng, rng.choice([345, 350]), code=ch) if rng.random() < 0.5 else push_seq(ch) + [(5, rng.choice([400, 600]), rng.choice([1, 2]), None)]
             else:
                 p = rand_prog(rng, grammar=True)
             if rng.random() < 0.15:
